@@ -53,42 +53,49 @@ def takeWhileC (p : Char → Bool) : List Char → List Char × List Char
   | [] => ([], [])
   | c :: cs => if p c then let (a, b) := takeWhileC p cs; (c :: a, b) else ([], c :: cs)
 
-/-- tokenizer; fuel = input length -/
-def lex : Nat → List Char → Option (List Tok)
-  | 0, [] => some []
-  | 0, _ => none
-  | _ + 1, [] => some []
-  | n + 1, c :: cs =>
-    if c == ' ' || c == '\n' || c == '\t' || c == '\r' then lex n cs
-    else if c == '(' then (lex n cs).map (Tok.lp :: ·)
-    else if c == ')' then (lex n cs).map (Tok.rp :: ·)
-    else if c == ',' then (lex n cs).map (Tok.comma :: ·)
-    else if c == ';' then (lex n cs).map (Tok.semi :: ·)
-    else if c == '[' then (lex n cs).map (Tok.lb :: ·)
-    else if c == ']' then (lex n cs).map (Tok.rb :: ·)
-    else if c == '=' then (lex n cs).map (Tok.eq :: ·)
-    else if c == '%' then (match cs with | '%' :: rest => (lex n rest).map (Tok.pct2 :: ·) | _ => none)
+/-- after an opening quote: the long form when two more quotes follow, else the short form -/
+def lexString (k : List Char → Option (List Tok)) : List Char → Option (List Tok)
+  | '"' :: '"' :: rest =>
+    (match lexLong rest [] with
+     | some (s, r) => (k r).map (Tok.str (String.ofList s) :: ·)
+     | none => none)
+  | cs =>
+    (match lexShort cs [] with
+     | some (s, r) => (k r).map (Tok.str (String.ofList s) :: ·)
+     | none => none)
+
+/-- one tokenizer step: consume white space or one token from the front, continue with `k` on the rest -/
+def lexBody (k : List Char → Option (List Tok)) : List Char → Option (List Tok)
+  | [] => some []
+  | c :: cs =>
+    if c == ' ' || c == '\n' || c == '\t' || c == '\r' then k cs
+    else if c == '(' then (k cs).map (Tok.lp :: ·)
+    else if c == ')' then (k cs).map (Tok.rp :: ·)
+    else if c == ',' then (k cs).map (Tok.comma :: ·)
+    else if c == ';' then (k cs).map (Tok.semi :: ·)
+    else if c == '[' then (k cs).map (Tok.lb :: ·)
+    else if c == ']' then (k cs).map (Tok.rb :: ·)
+    else if c == '=' then (k cs).map (Tok.eq :: ·)
+    else if c == '%' then (match cs with | '%' :: rest => (k rest).map (Tok.pct2 :: ·) | _ => none)
     else if c == '<' then
       let (body, rest) := takeWhileC (· != '>') cs
-      (match rest with | '>' :: r => (lex n r).map (Tok.iri (String.ofList body) :: ·) | _ => none)
+      (match rest with | '>' :: r => (k r).map (Tok.iri (String.ofList body) :: ·) | _ => none)
     else if c == '\'' then
       let (body, rest) := takeWhileC (· != '\'') cs
-      (match rest with | '\'' :: r => (lex n r).map (Tok.qnlit (String.ofList body) :: ·) | _ => none)
+      (match rest with | '\'' :: r => (k r).map (Tok.qnlit (String.ofList body) :: ·) | _ => none)
     else if c == '@' then
       let (body, rest) := takeWhileC (fun x => x.isAlphanum || x == '-') cs
-      (lex n rest).map (Tok.lang (String.ofList body) :: ·)
-    else if c == '"' then
-      (match cs with
-       | '"' :: '"' :: rest => (match lexLong rest [] with
-         | some (s, r) => (lex n r).map (Tok.str (String.ofList s) :: ·)
-         | none => none)
-       | _ => (match lexShort cs [] with
-         | some (s, r) => (lex n r).map (Tok.str (String.ofList s) :: ·)
-         | none => none))
+      (k rest).map (Tok.lang (String.ofList body) :: ·)
+    else if c == '"' then lexString k cs
     else if isWordChar c then
       let (body, rest) := takeWhileC isWordChar (c :: cs)
-      (lex n rest).map (Tok.word (String.ofList body) :: ·)
+      (k rest).map (Tok.word (String.ofList body) :: ·)
     else none
+
+/-- tokenizer; fuel = input length (one unit per step) -/
+def lex : Nat → List Char → Option (List Tok)
+  | 0, cs => if cs.isEmpty then some [] else none
+  | n + 1, cs => lexBody (lex n) cs
 
 /-! ### grammar tables -/
 
